@@ -1489,6 +1489,15 @@ class PolyhedralTermList(TermList):  # noqa: WPS338
         6: _tactic_trivial.__func__,  # type: ignore
     }
 
+    @staticmethod
+    def _is_sound_transformation(
+        term: PolyhedralTerm, result: PolyhedralTerm, context: PolyhedralTermList, refine: bool
+    ) -> bool:
+        # a refinement must imply the term in the context; a relaxation must be implied by it
+        if refine:
+            return (context | PolyhedralTermList([result])).refines(PolyhedralTermList([term]))
+        return (context | PolyhedralTermList([term])).refines(PolyhedralTermList([result]))
+
     # Return:
     # - transformed term
     # - successful tactic number, if > 0; 0 if no applicable tactic, -1 if all tactics failed
@@ -1515,7 +1524,7 @@ class PolyhedralTermList(TermList):  # noqa: WPS338
                 ta = time.time()
                 result, count = PolyhedralTermList.TACTICS[tactic_num](term, context, vars_to_elim, refine)
                 tb = time.time()
-                if result is not None:
+                if result is not None and PolyhedralTermList._is_sound_transformation(term, result, context, refine):
                     return result, tactic_num, tb - ta, count
             except ValueError:
                 continue
